@@ -35,6 +35,8 @@ def main():
     try:
         sc.populate()
         sc.inject()
+        if any("loom" in h.get("cfg", "") for h in hs):
+            sc.add_loom_shim()
         logdir = os.path.join(vlib.VERIF, "logs", "dev")
         res = vlib.run_harnesses(sc, hs, logdir)
         for r in sorted(res, key=lambda r: r["harness"]):
